@@ -41,8 +41,10 @@ def main(pid, tier, seed):
         d = os.path.join(work, 'r%d' % k)
         desc = [expand.tie_group_ruleset, expand.dyadic_prince_ruleset, expand.rich_ruleset, ptq.random_float_ruleset][k % 4](rng, d)
         rdirs.append((d, desc))
-    d = os.path.join(work, 'long')
-    rdirs.append((d, expand.long_alpha_ruleset(rng, d)))
+    from . import shapes
+    for d_, desc_ in shapes.all_special(rng, work):
+        if os.path.exists(os.path.join(d_, 'Prince', 'grammar.txt')) and os.path.getsize(os.path.join(d_, 'Prince', 'grammar.txt')) > 0:
+            rdirs.append((d_, desc_))
     # the PRINCE grammar's structures as loaded: every alpha variable with the case masks of ITS length (Loader.tla InsertC)
     from . import check_loader, rulesets
     ltraces, lmeta = [], {}
